@@ -106,7 +106,7 @@ def random_case(rng, tier):
     for action in schedule:
         if action['act'] == 'pause':
             action['msg'] = rng.choice([None, '', 'paused-by-env', 'p2'])
-    return {'program': program, 'schedule': schedule, 'opts': {'final_play': True}}
+    return {'program': program, 'schedule': schedule, 'opts': common.with_communicator(rng, {'final_play': True})}
 
 
 def shrink(case):
